@@ -83,6 +83,37 @@ def oracle_colons(d):
     return fails
 
 
+# (b2) colons present, and a block that merely refers to another section ('... of said Sec 15: ...') -----------------------
+REF_CASE = st.fixed_dictionaries({
+    "d": SECFIRST, "w": st.sampled_from(["of", "of said", "in", "within", "in said", "of the said"]), "secw": st.sampled_from(["Sec", "Section", "Sec.", "Sect."]),
+    "n": st.integers(1, 36), "lead": st.sampled_from([" and the E/2", ", being part", " and that portion lying", "; also a strip"]),
+    "tail": st.sampled_from(["lying east of the river", "as shown on the plat", "containing 40 acres"]), "which": st.integers(0, 8),
+})
+
+
+def ref_text(c):
+    text = G.render(c["d"])
+    blocks = [sx["block"] for g in c["d"]["groups"] for sx in g["secs"]]
+    blk = blocks[c["which"] % len(blocks)]
+    phrase = f"{c['lead']} {c['w']} {c['secw']} {c['n']}: {c['tail']}"
+    i = text.find(blk)
+    return text[:i + len(blk)] + phrase + text[i + len(blk):]
+
+
+def oracle_colons_ref(c):
+    text = ref_text(c)
+    a = PLSSDesc(text)
+    fails = []
+    for mode in ("sec_colon_required", "sec_colon_cautious"):
+        b = PLSSDesc(text, config=mode)
+        if tr(a) != tr(b):
+            fails.append(Failure(f"colon_mode_changes_tracts_with_reference:{mode}", f"{text!r}: {mode} gives {tr(b)}, default {tr(a)}",
+                                 text=text, default=tr(a), got=tr(b), w_flags=list(b.w_flags)))
+        elif sorted(map(str, b.flags)) != sorted(map(str, a.flags)):
+            fails.append(Failure(f"colon_mode_changes_flags_with_reference:{mode}", f"{text!r}: {mode} flags {b.flags} vs default {a.flags}", text=text))
+    return fails
+
+
 # (c) no colons ----------------------------------------------------------------
 
 def oracle_nocolons(d):
@@ -102,6 +133,13 @@ def oracle_nocolons(d):
         fails.append(Failure("required_count", f"{text!r}: sec_colon_required gives {len(c.tracts)} tracts: {tr(c)}", text=text, got=tr(c)))
     elif not whole_text_modulo_cleanup(c.tracts[0].desc, c.pp_desc):
         fails.append(Failure("required_desc", f"{text!r}: sec_colon_required tract desc {c.tracts[0].desc!r} is not the whole text {c.pp_desc!r}", text=text))
+    # ... also when other optional modes are on at the same time
+    # (with several Twp/Rges `segment` makes each segment fall back on its own, so it is only combined with a single Twp/Rge)
+    for extra in (("sec_within", "segment", "sec_within,segment") if len(d["groups"]) == 1 else ("sec_within",)):
+        cx = PLSSDesc(text, config=f"sec_colon_required,{extra}")
+        if tr(cx) != tr(c) or sorted(map(str, cx.e_flags)) != sorted(map(str, c.e_flags)):
+            fails.append(Failure(f"required_with_{extra.replace(',', '_')}", f"{text!r}: sec_colon_required,{extra} gives {tr(cx)} {cx.e_flags}, sec_colon_required alone {tr(c)} {c.e_flags}", text=text))
+            break
     # the keyword channel must agree
     k = PLSSDesc(text, wait_to_parse=True)
     k.parse(sec_colon_required=True)
@@ -202,6 +240,12 @@ def oracle_within(c):
     k.parse(sec_within=True)
     if tr(k) != want:
         fails.append(Failure("sec_within_kw_differs", f"{text!r}: parse(sec_within=True) gives {tr(k)}", **ctx))
+    # the description follows a single layout: segment changes nothing here either
+    for extra in ("segment", "segment,parse_qq"):
+        m = PLSSDesc(text, config=f"sec_within,{extra}")
+        if tr(m) != want:
+            fails.append(Failure(f"sec_within_with_{extra.split(',')[0]}", f"{text!r}: sec_within,{extra} gives {tr(m)}, expected {want}", **ctx))
+            break
     return fails
 
 
@@ -242,4 +286,7 @@ SUBS = [
         render=lambda c: {"text": within_text(c)},
         n={"quick": 800, "thorough": 10000}, shards={"quick": 2, "thorough": 8},
         essential=tuple(f"place={p}" for p in PLACE) + ("multi", "single")),
+    Sub("colons_present_reference", oracle_colons_ref, strategy=lambda tier: REF_CASE, validate=lambda c: G.validate(c["d"]), nontrivial=lambda c: n_tracts(c["d"]) >= 2,
+        classes=lambda c: lay_classes(c["d"]) + [f"w={c['w']}"], render=lambda c: {"text": ref_text(c)},
+        n={"quick": 400, "thorough": 6000}, shards={"quick": 4, "thorough": 16}),
 ]
